@@ -1,6 +1,6 @@
 /-
 Shifting the integer time index of every input by a constant commutes with every call of the
-series-transformer machine (except the label-indexed Hampel filter).
+series-transformer machine.
 -/
 import SkVerif.Model.SeriesTransform
 import SkVerif.Lemmas.SeriesRound
@@ -20,12 +20,6 @@ def shiftState (c : Int) : TState → TState
   | .col s => .col s
   | .hampel cfg f => .hampel cfg f
   | .pass p i h f ft => .pass (shiftState c p) (shiftState c i) h f ft
-
-/-- no label-indexed Hampel filter anywhere in the object -/
-def Positional : TState → Prop
-  | .hampel _ _ => False
-  | .pass p i _ _ _ => Positional p ∧ Positional i
-  | _ => True
 
 -- series level ---------------------------------------------------------------------------------
 theorem labels_shift (c : Int) (z : Series) : labels (shiftSeries c z) = (labels z).map (· + c) := by
